@@ -14,7 +14,11 @@ def main(ctx):
     J.append({'mod': MOD, 'fn': 'kernels', 'mode': 'sym', 'args': {'kind': 'bounds', 'measure': 'max', 'threshold': 0.5, 'cap': cap}})
     J.append({'mod': MOD, 'fn': 'regularization', 'mode': 'sym', 'args': {'kernel': 1, 'cap': cap}})
     J.append({'mod': MOD, 'fn': 'regularization', 'mode': 'sym', 'args': {'kernel': 3, 'depth': 1, 'cap': cap}})
+    J.append({'mod': MOD, 'fn': 'std_intensity', 'mode': 'sym', 'args': {'R': 3, 'C': 4, 'cap': cap}})
+    J.append({'mod': MOD, 'fn': 'std_intensity', 'mode': 'sym', 'args': {'R': 3, 'C': 3, 'bands': ['r', 'g'], 'band': 'g', 'cap': cap}})
     if not ctx.quick:
+        J.append({'mod': MOD, 'fn': 'std_intensity', 'mode': 'sym', 'args': {'R': 5, 'C': 6, 'ws': 5, 'cap': cap}})
+        J.append({'mod': MOD, 'fn': 'std_intensity', 'mode': 'sym', 'args': {'R': 4, 'C': 5, 'ws': 1, 'cap': cap}})
         J.append({'mod': MOD, 'fn': 'kernels', 'mode': 'sym', 'args': {'kind': 'risk', 'D': 4, 'eta_max': 0.75, 'cap': cap}})
         J.append({'mod': MOD, 'fn': 'kernels', 'mode': 'sym', 'args': {'kind': 'ambiguity', 'D': 4, 'eta_max': 1.0, 'eta_step': 0.125, 'cap': cap}})
         J.append({'mod': MOD, 'fn': 'kernels', 'mode': 'sym', 'args': {'kind': 'bounds', 'D': 4, 'threshold': 0.875, 'cap': cap}})
@@ -29,7 +33,8 @@ def main(ctx):
                               'compute_risk and compute_interval_bounds run from source on a symbolic cost volume (NaN holes, ties, min and max measures): '
                               'definitions as stated, 0 <= risk_min <= risk_max, inf <= winner <= sup; interval_regularization + graph kernels with '
                               'quantile 1 only widen and do not modify the ambiguity band handed in (segment borders concretised by forking)')
-    ctx.assumptions += ['C12: std_intensity (needs sqrt) and percentile normalisation of the ambiguity are outside the harness; normalised costs use real '
+    ctx.cov['explanation'] += '; std_intensity: the band is NaN on the border and sqrt(variance of the left window) elsewhere (sqrt uninterpreted with s >= 0, s*s == x; the argument the code passes is proved equal to the window variance)'
+    ctx.assumptions += ['C12: percentile normalisation of the ambiguity is outside the harness; std_intensity with reals-for-floats; normalised costs use real '
                         'arithmetic with pinned global extremes; one fully symbolic pixel between two concrete ones per kernel run']
 
 
